@@ -270,4 +270,245 @@ theorem parse_ends_valid (rs : List Res) (t s f : Str) (h : periodParse rs = som
     exact ⟨fmtOff_valid _, fmtOff_valid _⟩
   · simp at h
 
+/-! ## `parse_time_of_day`: "morning", "early afternoon", "late night" -/
+
+def RowOK (c : Str) : Bool :=
+  match timexParseTimeOfDay c with
+  | some r => r.timex == c && decide (r.beginHour < r.endHour) && decide (r.endHour ≤ 23) && (r.endMin == 0 || r.endMin == 59)
+  | none => false
+
+/-- **The part-of-day table** (`TimexUtil.parse_time_of_day`), every row: the row's TIMEX is the code it was asked for,
+begin hour < end hour ≤ 23, and the end minute is 0 or 59 (so that `datetime(…, end_hour, end_min, end_min)` is a time of
+day before midnight). -/
+theorem tod_table_rows (c : Str) (hc : c ∈ todCodes) :
+    ∃ r, timexParseTimeOfDay c = some r ∧ r.timex = c ∧ r.beginHour < r.endHour ∧ r.endHour ≤ 23 ∧ (r.endMin = 0 ∨ r.endMin = 59) := by
+  have all : todCodes.all RowOK = true := by decide
+  have := List.all_eq_true.mp all c hc
+  unfold RowOK at this
+  cases hr : timexParseTimeOfDay c with
+  | none => simp [hr] at this
+  | some r =>
+    simp only [hr, Bool.and_eq_true, Bool.or_eq_true, beq_iff_eq, decide_eq_true_eq] at this
+    exact ⟨r, rfl, this.1.1.1, this.1.1.2, this.1.2, this.2⟩
+
+/-- the English and the Spanish `get_matched_timex_range` only produce codes the table knows (the `TypeError` branch of
+the model is unreachable) -/
+theorem tod_codes_known (u : Uni) (s c : Str) (h : enTodCode u s = some c ∨ esTodCode u s = some c) : c ∈ todCodes := by
+  rcases h with h | h
+  · unfold enTodCode at h
+    simp only at h
+    repeat' (split at h)
+    all_goals first
+      | (simp only [Option.some.injEq] at h; subst h; decide)
+      | simp at h
+  · unfold esTodCode at h
+    simp only at h
+    repeat' (split at h)
+    all_goals first
+      | (simp only [Option.some.injEq] at h; subst h; decide)
+      | simp at h
+
+/-- **A plain part of the day** resolves to its row: TIMEX = the code, from `begin:00:00` to `end:mm:mm` of the reference
+day (`endMin` doubles as the seconds: 23:59:59 for the night). -/
+theorem tod_plain (code : Str → Option Str) (src c : Str) (row : TodRow) (h1 : code src = some c)
+    (h2 : timexParseTimeOfDay c = some row) (hv : row.beginHour ≤ 23 ∧ row.endHour ≤ 23 ∧ row.endMin ≤ 59) :
+    timeOfDay code src [] [] = .ok row.timex [] [] ((row.beginHour : Int) * 3600)
+      ((row.endHour : Int) * 3600 + (row.endMin : Int) * 60 + (row.endMin : Int)) := by
+  have g : ¬(row.beginHour > 23 ∨ row.endHour > 23 ∨ row.endMin > 59) := by omega
+  simp [timeOfDay, h1, h2, g]
+
+def TodOK (c early late : Str) (wantMod : Str) : Bool :=
+  match timeOfDay (fun _ => some c) [] early late with
+  | .ok t _ m s e => t == c && m == wantMod && decide (0 ≤ s) && decide (s < e) && decide (e < 86400)
+  | _ => false
+
+/-- **Every row, plain / early / late**: the result keeps the row's code as TIMEX and is a non-empty range inside the
+reference day (0 ≤ start < end < 24:00:00); `early …` is the first two hours (`Mod = start`), `late …` starts two hours in
+(`Mod = end`).  Exception (`tod_late_empty_witness`): the two-hour rows `TMI` / `TMEL` have an empty `late` window; no
+`early` / `late` word can precede them in the English or Spanish pattern. -/
+theorem tod_windows :
+    todCodes.all (fun c => TodOK c [] [] []) = true ∧
+    todCodes.all (fun c => TodOK c (cp "early ") [] (cp "start")) = true ∧
+    (todCodes.filter (fun c => c ≠ sTMI ∧ c ≠ sTMEL)).all (fun c => TodOK c [] (cp "late ") (cp "end")) = true := by
+  decide +kernel
+
+theorem tod_late_empty_witness :
+    timeOfDay (fun _ => some sTMEL) [] [] (cp "late ") = .ok sTMEL (cp "late") (cp "end") 46800 46800 := by decide +kernel
+
+/-- examples through the English hook, with the early / late word removed from the text first -/
+theorem tod_examples :
+    timeOfDay (enTodCode aU) (cp "morning") [] [] = .ok sTMO [] [] 28800 43200 ∧
+    timeOfDay (enTodCode aU) (cp "in the early afternoons") (cp "early ") [] = .ok sTAF (cp "early") (cp "start") 43200 50400 ∧
+    timeOfDay (enTodCode aU) (cp "late night") [] (cp "late ") = .ok sTNI (cp "late") (cp "end") 79200 86399 ∧
+    timeOfDay (enTodCode aU) (cp "brunch") [] [] = .ok sTBH [] [] 28800 64800 ∧
+    timeOfDay (esTodCode aU) (cp "madrugada") [] [] = .ok sTDA [] [] 14400 28800 ∧
+    timeOfDay (enTodCode aU) (cp "noon") [] [] = .noResult := by
+  decide +kernel
+
+/-! ## `parse_basic_regex`: "now" -/
+
+/-- **"now" = the reference**: whenever `parse_basic_regex` succeeds, future and past value are the reference itself (to
+the second), and the TIMEX is the culture hook's; without a whole-text match nothing is resolved. -/
+theorem now_is_reference_datetime (now : Str → Option Str) (src : Str) (whole : Bool) (ref : DateTime) (t : Str)
+    (f p : DateTime) (h : basicRegex now src whole ref = some (t, f, p)) :
+    f = ref ∧ p = ref ∧ whole = true ∧ now src = some t := by
+  unfold basicRegex at h
+  cases whole with
+  | false => simp at h
+  | true =>
+    cases hn : now src with
+    | none => simp [hn] at h
+    | some t' =>
+      simp only [hn, if_true, Option.map_some, Option.some.injEq, Prod.mk.injEq] at h
+      exact ⟨h.2.1.symm, h.2.2.symm, rfl, by rw [h.1]⟩
+
+/-- the English hook: `now` / `right now` → `PRESENT_REF`, `recently` / `previously` → `PAST_REF`, `asap` / `as soon as
+possible` → `FUTURE_REF`; the other spellings `NowRegex` matches (`at present`, `at the moment`, …) get no TIMEX, so the
+parser does not resolve them. -/
+theorem now_english_codes :
+    enNowTimex aU (cp "now") = some sPresentRef ∧ enNowTimex aU (cp " right now ") = some sPresentRef ∧
+    enNowTimex aU (cp "recently") = some sPastRef ∧ enNowTimex aU (cp "previously") = some sPastRef ∧
+    enNowTimex aU (cp "asap") = some sFutureRef ∧ enNowTimex aU (cp "as soon as possible") = some sFutureRef ∧
+    enNowTimex aU (cp "at present") = none ∧ enNowTimex aU (cp "at the moment") = none := by
+  decide +kernel
+
+/-! ## `parse_special_time_of_date`: "end of day", "end of tomorrow" -/
+
+/-- **end of day** = 23:59:59 of the reference's date, TIMEX `<date>T23:59:59`, whatever else the text holds. -/
+theorem end_of_day_is_235959 (ref : RTV.DtRes.DT) (n : Nat) (hit : Bool) (pr : Option (Str × RTV.DtRes.DT × RTV.DtRes.DT)) :
+    specialTimeOfDate true ref n hit pr =
+      .ok { success := true, timex := RTV.DtRes.formatDate ref ++ cp "T23:59:59", comment := [],
+            future := ⟨ref.y, ref.m, ref.d, 23, 59, 59⟩, past := ⟨ref.y, ref.m, ref.d, 23, 59, 59⟩ } := by
+  simp [specialTimeOfDate, RTV.DtRes.endOfToday, RTV.DtRes.resolveEndOfDay, cp]
+
+/-- **end of `<date>`** = 23:59:59 of the date parser's future / past date, TIMEX = the date's TIMEX + `T23:59:59`;
+nothing is resolved unless exactly one date was found next to an "end of" phrase. -/
+theorem end_of_date_is_235959 (ref : RTV.DtRes.DT) (t : Str) (f p : RTV.DtRes.DT) :
+    specialTimeOfDate false ref 1 true (some (t, f, p)) =
+      .ok { success := true, timex := t ++ cp "T23:59:59", comment := [],
+            future := ⟨f.y, f.m, f.d, 23, 59, 59⟩, past := ⟨p.y, p.m, p.d, 23, 59, 59⟩ } ∧
+    specialTimeOfDate false ref 1 false (some (t, f, p)) = .ok {} ∧
+    specialTimeOfDate false ref 2 true (some (t, f, p)) = .ok {} := by
+  simp [specialTimeOfDate, RTV.DtRes.resolveEndOfDay, cp]
+
+/-! ## `parser_duration_with_ago_and_later`: "3 hours ago", "in 20 minutes", "2 days later" -/
+
+def unitSeconds : AUnit → Int
+  | .H => 3600 | .M => 60 | .S => 1 | _ => 0
+
+/-- **N hours | minutes | seconds ago / later = the reference ∓ N·unit seconds**, for every valid reference and every N:
+the value is a valid datetime exactly `N·unit` seconds before (`is_future = False`) or after the reference — across
+midnights, month ends and leap days, since the arithmetic is on (ordinal, second-of-day) — and the TIMEX is the value
+printed by `luis_date_time` (`luis_date` in DATE mode). -/
+theorem ago_later_seconds (un : AUnit) (hu : un = .H ∨ un = .M ∨ un = .S) (num : Nat) (ref : DateTime)
+    (hv : ref.date.valid = true) (fut dm : Bool) (t : Str) (v : DateTime)
+    (h : getDateResultAll un num ref fut dm = some (t, v)) :
+    v.date.valid = true ∧ v.secs < 86400 ∧
+    (v.date.ord : Int) * 86400 + v.secs =
+      (ref.date.ord : Int) * 86400 + ref.secs + (if fut then 1 else -1) * ((num : Int) * unitSeconds un) ∧
+    t = (if dm then RTV.DateUtils.luisDateOf v else RTV.DateUtils.luisDateTime v) := by
+  unfold getDateResultAll at h
+  simp only at h
+  cases hs : shifted un ((num : Int) * (if fut then 1 else -1)) ref with
+  | none => simp [hs] at h
+  | some w =>
+    simp only [hs, Option.map_some, Option.some.injEq, Prod.mk.injEq] at h
+    obtain ⟨h1, h2⟩ := h
+    subst h2
+    refine ⟨?_, ?_, ?_, h1.symm⟩
+    all_goals
+      rcases hu with hu | hu | hu <;> subst hu <;> simp only [shifted] at hs <;>
+      have := RTV.DateUtils.addSeconds_spec ref hv _ w hs
+    all_goals first
+      | exact this.1
+      | exact this.2.1
+      | (rw [this.2.2]; simp only [unitSeconds]; cases fut <;> simp <;> omega)
+
+/-- **N days | weeks ago / later**: the date moves by exactly N (7·N) days, the time of day is kept. -/
+theorem ago_later_days (un : AUnit) (hu : un = .D ∨ un = .W) (num : Nat) (ref : DateTime)
+    (hv : ref.date.valid = true) (fut dm : Bool) (t : Str) (v : DateTime)
+    (h : getDateResultAll un num ref fut dm = some (t, v)) :
+    v.date.valid = true ∧ v.secs = ref.secs ∧
+    (v.date.ord : Int) = ref.date.ord + (if fut then 1 else -1) * ((num : Int) * (if un = .W then 7 else 1)) := by
+  unfold getDateResultAll at h
+  simp only at h
+  cases hs : shifted un ((num : Int) * (if fut then 1 else -1)) ref with
+  | none => simp [hs] at h
+  | some w =>
+    simp only [hs, Option.map_some, Option.some.injEq, Prod.mk.injEq] at h
+    obtain ⟨h1, h2⟩ := h
+    subst h2
+    rcases hu with hu | hu <;> subst hu <;> simp only [shifted] at hs <;>
+      have := RTV.DateUtils.addDays_spec ref hv _ w hs
+    · refine ⟨this.1, this.2.2, ?_⟩; rw [this.2.1]; cases fut <;> simp <;> omega
+    · refine ⟨this.1, this.2.2, ?_⟩; rw [this.2.1]; cases fut <;> simp <;> omega
+
+/-- **The whole function**: when `parser_duration_with_ago_and_later` succeeds, an "ago" text gives the reference shifted
+back, a "later / in" text shifted forward, by the amount read off the duration TIMEX in the unit `unit_map` gives for the
+matched unit word; the duration sub-entity is marked `before` / `after`. "ago" is tested first. -/
+theorem ago_later_spec (u : Uni) (vt ts su : Str) (unitMap : List (Str × Str)) (ago later : Bool) (ref : DateTime)
+    (t : Str) (v : DateTime) (m : Str)
+    (h : agoLater u (some (some (vt, ts))) (some su) unitMap ago later ref = .ok t v m) :
+    ∃ num code un, numOfTimex u vt = some num ∧ (unitMap.find? (fun p => p.1 == su)).map (·.2) = some code ∧
+      unitOfCode code = some un ∧ (ago = true ∨ later = true) ∧
+      getDateResultAll un num ref (!ago) (dateModeOf ts) = some (t, v) ∧
+      m = (if ago then cp "before" else cp "after") := by
+  unfold agoLater at h
+  simp only at h
+  cases hn : numOfTimex u vt with
+  | none => simp [hn] at h
+  | some num =>
+    cases hc : (unitMap.find? (fun p => p.1 == su)).map (·.2) with
+    | none => simp [hn, hc] at h
+    | some code =>
+      simp only [hn, hc] at h
+      split at h
+      · cases h
+      · split at h
+        · rename_i ha
+          cases hu : unitOfCode code with
+          | none => simp [hu] at h
+          | some un =>
+            simp only [hu] at h
+            cases hg : getDateResultAll un num ref false (dateModeOf ts) with
+            | none => simp [hg] at h
+            | some r =>
+              obtain ⟨t', v'⟩ := r
+              simp only [hg, ARes.ok.injEq] at h
+              refine ⟨num, code, un, rfl, rfl, hu, Or.inl ha, ?_, ?_⟩
+              · simp [ha, hg, h.1, h.2.1]
+              · simp [ha, cp, RTV.Py.ofString, ← h.2.2]
+        · rename_i ha
+          split at h
+          · rename_i hl
+            cases hu : unitOfCode code with
+            | none => simp [hu] at h
+            | some un =>
+              simp only [hu] at h
+              cases hg : getDateResultAll un num ref true (dateModeOf ts) with
+              | none => simp [hg] at h
+              | some r =>
+                obtain ⟨t', v'⟩ := r
+                simp only [hg, ARes.ok.injEq] at h
+                have ha' : ago = false := by simpa using ha
+                refine ⟨num, code, un, rfl, rfl, hu, Or.inr hl, ?_, ?_⟩
+                · simp [ha', hg, h.1, h.2.1]
+                · simp [ha', cp, RTV.Py.ofString, ← h.2.2]
+          · cases h
+
+/-- examples: "3 hours ago" at 2020-03-01 00:00:10 crosses the leap day; "in 20 minutes" at 23:59:59 of a New Year's Eve
+crosses the year; a decimal amount (`PT1.5H`) makes `int()` raise. -/
+theorem ago_later_examples :
+    agoLater aU (some (some (cp "PT3H", cp "PT3H"))) (some (cp "hours")) [(cp "hours", cp "H")] true false ⟨⟨2020, 3, 1⟩, 10⟩ =
+      .ok (cp "2020-02-29T21:00:10") ⟨⟨2020, 2, 29⟩, 75610⟩ (cp "before") ∧
+    agoLater aU (some (some (cp "PT20M", cp "PT20M"))) (some (cp "minutes")) [(cp "minutes", cp "M")] false true
+        ⟨⟨2019, 12, 31⟩, 86399⟩ = .ok (cp "2020-01-01T00:19:59") ⟨⟨2020, 1, 1⟩, 1199⟩ (cp "after") ∧
+    agoLater aU (some (some (cp "P2D", cp "P2D"))) (some (cp "days")) [(cp "days", cp "D")] false true ⟨⟨2020, 2, 28⟩, 37800⟩ =
+      .ok (cp "2020-03-01") ⟨⟨2020, 3, 1⟩, 37800⟩ (cp "after") ∧
+    agoLater aU (some (some (cp "PT1.5H", cp "PT1.5H"))) (some (cp "hours")) [(cp "hours", cp "H")] true false ⟨⟨2020, 3, 1⟩, 10⟩ =
+      .raises "ValueError" ∧
+    agoLater aU (some (some (cp "PT3H", cp "PT3H"))) (some (cp "hours")) [(cp "hours", cp "H")] false false ⟨⟨2020, 3, 1⟩, 10⟩ =
+      .noResult := by
+  decide +kernel
+
 end RTV.TimePeriod
